@@ -16,6 +16,8 @@
 #include <sys/mman.h>
 #include <unistd.h>
 
+#include <elfutils/libdw.h>
+
 #if ZSIM_ASAN
 # include <sanitizer/common_interface_defs.h>
 # include <sanitizer/lsan_interface.h>
@@ -31,6 +33,7 @@ extern "C"
 
 namespace
 {
+  long g_stale_dwerr_set = 0;
   int g_out = -1;
   std::string g_outbuf;
   std::map <std::string, std::pair <long, long>> g_api_counts; // calls, failures
@@ -387,6 +390,18 @@ namespace
 
     fs_arm_io (s.io);
     alarm ((unsigned) st.p.knob ("watchdog_s", 10));	// the watchdog is per step
+
+    // buggify: libdw keeps the code of the last failure in a per-thread cell
+    // that an embedding program shares with libzwerg.  Leave an unrelated
+    // error pending there; code that reads the cell without having just seen
+    // a call fail will pick it up.
+    if (st.p.knob ("stale_dwerr", 0) != 0)
+      {
+	Dwarf *none = dwarf_begin (-1, DWARF_C_READ);
+	if (none != nullptr)
+	  dwarf_end (none);
+	++g_stale_dwerr_set;
+      }
 
     if (op == "VOC")
       {
@@ -946,6 +961,7 @@ child_run_plan (plan const &p, int out_fd)
   emit ("ctr closes " + std::to_string (fc.closes));
   emit ("ctr double_close " + std::to_string (fc.double_close));
   emit ("ctr close_ebadf_in_libs " + std::to_string (fc.close_ebadf_in_libs));
+  emit ("ctr stale_dwerr_set " + std::to_string (g_stale_dwerr_set));
   emit ("ctr cache_lookups " + std::to_string (hooks_cache_lookups ()));
   emit ("ctr cache_drops " + std::to_string (hooks_cache_drops ()));
   for (auto const &a: g_api_counts)
